@@ -421,7 +421,7 @@ func c08Run(b *core.B) {
 	r := b.Rng(1)
 	n := 120000
 	if b.Tier == core.Thorough {
-		n = 3000000
+		n = 8000000
 	}
 	its := c08Iterables(r)
 	for i := 0; i < n/b.NBatches; i++ {
